@@ -66,8 +66,8 @@ def o_pipeline_selection(ctx):
     src = M.text('pair_ASP_ASP')
     cid = ctx.choice('second_chain_id', ['B', 'a', '1', ' ', 'b'])
     txt = ''.join((l[:21] + cid + l[22:] + '\n') if (l[:4] == 'ATOM' and l[21] == 'B') else (l + '\n') for l in src.split('\n') if l)
-    sel = ctx.choice('selected', ['first', 'second', 'both'])
-    chains = {'first': ['A'], 'second': [cid], 'both': ['A', cid]}[sel]
+    sel = ctx.choice('selected', ['first', 'second', 'both', 'both-reversed'])
+    chains = {'first': ['A'], 'second': [cid], 'both': ['A', cid], 'both-reversed': [cid, 'A']}[sel]
     args = []
     for c in chains:
         args += ['-c', c]
@@ -85,6 +85,11 @@ def o_pipeline_selection(ctx):
                        tuple(sorted(round(d.value, 9) for k in g.determinants for d in g.determinants[k]))) for g in mol.conformations['AVR'].groups)
     ctx.claim('selection-equals-deletion(pipeline)', rec(with_option) == rec(deleted), detail='second chain %r, selected %r: %r vs %r' % (cid, chains, rec(with_option)[:3], rec(deleted)[:3]))
     ctx.claim('something-selected', len(rec(with_option)) > 0)
+    import propka.output as O
+    ta = O.get_determinant_section(with_option, 'AVR', with_option.version.parameters)
+    tb = O.get_determinant_section(deleted, 'AVR', deleted.version.parameters)
+    ctx.claim('selection-equals-deletion(written determinant section)', ta == tb, detail='%d vs %d lines' % (len(ta.split(chr(10))), len(tb.split(chr(10)))))
+    ctx.claim('selection-equals-deletion(written summary)', O.get_summary_section(with_option, 'AVR', with_option.version.parameters) == O.get_summary_section(deleted, 'AVR', deleted.version.parameters))
 
 
 def obligations(tier):
